@@ -4,7 +4,9 @@ pub mod sym;
 
 pub mod c08p;
 pub mod c18;
+pub mod c19;
 pub mod c20;
+pub mod extracted_csv;
 pub mod extracted_cbts;
 #[rustfmt::skip]
 pub mod drift_data;
